@@ -34,7 +34,7 @@ CONTRACTS = {
     "Imply.__init__": {"props": ["C04", "C16", "C18"], "why": "c -> q == not(c) or q; atoms are wrapped in All() before negation"},
     "Not.__new__": {"props": ["C04", "C05", "C16"], "why": "Not(p) == negate(p), atoms wrapped in All()"},
     "Imply.from_cicJE": {"props": ["C04"], "why": "rule-type table, relation table (default ALL), 1-vs-many wrapping"},
-    "from_json": {"props": ["C04", "C16"], "why": "type string dispatches to the class of that name"},
+    "from_json": {"types": {"data": ["dict"]}, "props": ["C04", "C16"], "why": "type string dispatches to the class of that name"},
     # ---- structure ---------------------------------------------------------------------------------------
     "AtLeast.id": {"props": ["C01", "C03", "C04", "C05", "C06", "C07", "C08", "C10", "C14", "C15", "C16", "C18"], "why": "id of a node is the id of its variable"},
     "AtLeast.bounds": {"props": ["C01", "C03", "C04", "C05", "C06", "C07", "C08", "C10", "C15"], "why": "bounds of a node are its variable's bounds"},
@@ -71,21 +71,21 @@ CONTRACTS = {
                                  "why": "same statements; result [b | A] with support variable first and column j+1 = node of rust column j"},
     "AtLeast.solve": {"props": ["C15"], "why": "objective over A-columns default 0; zip(A.variables, solution); virtual filter; None -> {}"},
     # ---- serialisation (C16 / C17) ------------------------------------------------------------------------------
-    "AtLeast.to_json": {"props": ["C16"], "why": "type, propositions, value; id iff explicit; sign iff not the constructor default"},
-    "AtLeast.from_json": {"props": ["C04", "C16"], "why": "value default 1; children through the dispatcher; id; sign"},
-    "AtMost.to_json": {"props": ["C16"], "why": "value written as -1*stored value (inverse of the constructor)"},
-    "AtMost.from_json": {"props": ["C04", "C16"], "why": "reads value/propositions/id through AtMost()"},
-    "All.to_json": {"props": ["C16"], "why": "no value (re-derived from the children)"},
-    "All.from_json": {"props": ["C04", "C16"], "why": "children + id through All()"},
-    "Any.to_json": {"props": ["C16"], "why": "no value (constant 1)"},
-    "Any.from_json": {"props": ["C04", "C16"], "why": "children + id through Any()"},
-    "Imply.to_json": {"props": ["C16"], "why": "condition written re-negated, consequence as is"},
-    "Imply.from_json": {"props": ["C04", "C16"], "why": "condition/consequence/id through Imply()"},
-    "Xor.to_json": {"props": ["C16"], "why": "children of the first (at-least-one) sub proposition"},
-    "Xor.from_json": {"props": ["C04", "C16"], "why": "cls(*children, variable=id)"},
-    "XNor.to_json": {"props": ["C16"], "why": "children of the re-negated first sub proposition"},
-    "XNor.from_json": {"props": ["C04", "C16"], "why": "children + id through XNor()"},
-    "Not.from_json": {"props": ["C16", "C04"], "why": "Not(from_json(proposition))"},
+    "AtLeast.to_json": {"domain": ["self.bounds.as_tuple() == (0, 1)", "self.variable.bounds.as_tuple() == (0, 1)", "self.bounds.constant is None", "self.variable.bounds.constant is None"], "props": ["C16"], "why": "type, propositions, value; id iff explicit; sign iff not the constructor default"},
+    "AtLeast.from_json": {"domain": ["'bounds' not in data", "data.get('bounds') is None", "data.get('bounds', None) is None"], "types": {"data": ["dict"]}, "props": ["C04", "C16"], "why": "value default 1; children through the dispatcher; id; sign"},
+    "AtMost.to_json": {"domain": ["self.bounds.as_tuple() == (0, 1)", "self.variable.bounds.as_tuple() == (0, 1)", "self.bounds.constant is None", "self.variable.bounds.constant is None"], "props": ["C16"], "why": "value written as -1*stored value (inverse of the constructor)"},
+    "AtMost.from_json": {"domain": ["'bounds' not in data", "data.get('bounds') is None", "data.get('bounds', None) is None"], "types": {"data": ["dict"]}, "props": ["C04", "C16"], "why": "reads value/propositions/id through AtMost()"},
+    "All.to_json": {"domain": ["self.bounds.as_tuple() == (0, 1)", "self.variable.bounds.as_tuple() == (0, 1)", "self.bounds.constant is None", "self.variable.bounds.constant is None"], "props": ["C16"], "why": "no value (re-derived from the children)"},
+    "All.from_json": {"domain": ["'bounds' not in data", "data.get('bounds') is None", "data.get('bounds', None) is None"], "types": {"data": ["dict"]}, "props": ["C04", "C16"], "why": "children + id through All()"},
+    "Any.to_json": {"domain": ["self.bounds.as_tuple() == (0, 1)", "self.variable.bounds.as_tuple() == (0, 1)", "self.bounds.constant is None", "self.variable.bounds.constant is None"], "props": ["C16"], "why": "no value (constant 1)"},
+    "Any.from_json": {"domain": ["'bounds' not in data", "data.get('bounds') is None", "data.get('bounds', None) is None"], "types": {"data": ["dict"]}, "props": ["C04", "C16"], "why": "children + id through Any()"},
+    "Imply.to_json": {"domain": ["self.bounds.as_tuple() == (0, 1)", "self.variable.bounds.as_tuple() == (0, 1)", "self.bounds.constant is None", "self.variable.bounds.constant is None"], "props": ["C16"], "why": "condition written re-negated, consequence as is"},
+    "Imply.from_json": {"domain": ["'bounds' not in data", "data.get('bounds') is None", "data.get('bounds', None) is None"], "types": {"data": ["dict"]}, "props": ["C04", "C16"], "why": "condition/consequence/id through Imply()"},
+    "Xor.to_json": {"domain": ["self.bounds.as_tuple() == (0, 1)", "self.variable.bounds.as_tuple() == (0, 1)", "self.bounds.constant is None", "self.variable.bounds.constant is None"], "props": ["C16"], "why": "children of the first (at-least-one) sub proposition"},
+    "Xor.from_json": {"domain": ["'bounds' not in data", "data.get('bounds') is None", "data.get('bounds', None) is None"], "types": {"data": ["dict"]}, "props": ["C04", "C16"], "why": "cls(*children, variable=id)"},
+    "XNor.to_json": {"domain": ["self.bounds.as_tuple() == (0, 1)", "self.variable.bounds.as_tuple() == (0, 1)", "self.bounds.constant is None", "self.variable.bounds.constant is None"], "props": ["C16"], "why": "children of the re-negated first sub proposition"},
+    "XNor.from_json": {"domain": ["'bounds' not in data", "data.get('bounds') is None", "data.get('bounds', None) is None"], "types": {"data": ["dict"]}, "props": ["C04", "C16"], "why": "children + id through XNor()"},
+    "Not.from_json": {"types": {"data": ["dict"]}, "props": ["C16", "C04"], "why": "Not(from_json(proposition))"},
     "AtLeast.to_b64": {"props": ["C17"], "why": "pickle.dumps(self) -> gzip -> base64"},
     "from_b64": {"props": ["C17"], "why": "inverse pipeline"},
 }
